@@ -400,14 +400,15 @@ def detectXMLEncoding(fp, log=None, includeDefault=True):  # noqa: C901
     # set up regular expression
     xmlDeclPattern = r"""
     ^<\?xml             # w/o BOM, xmldecl starts with <?xml at the first byte
-    .+?                 # some chars (version info), matched minimal
-    encoding=           # encoding attribute begins
+    \s+version\s*=\s*   # version info comes first; white space (also line
+    ["'][^"']*["']      # breaks) separates the parts and may surround "="
+    \s+encoding\s*=\s*  # encoding attribute begins
     ["']                # attribute start delimiter
     (?P<encstr>         # what's matched in the brackets will be named encstr
      [^"']+              # every character not delimiter (not overly exact!)
     )                   # closes the brackets pair for the named group
     ["']                # attribute end delimiter
-    .*?                 # some chars optionally (standalone decl or whitespace)
+    [^?>]*              # some chars optionally (standalone decl or whitespace)
     \?>                 # xmldecl end
     """
     xmlDeclRE = re.compile(xmlDeclPattern, re.VERBOSE)
